@@ -191,6 +191,59 @@ func vDecision(v6 bool) {
 	}
 }
 
+// verifC05_MixedFamilies: lists that mix IPv4 and IPv6 entries in any order: an entry of the
+// other family never matches and never disturbs the entries around it.
+func verifC05_MixedFamilies() {
+	mixed := []vNet{vPool6[0], vPool4[2], vPool4[0], vPool6[2]} // ::1, 10.1.2.3, 10.0.0.0/8, 2001:db8::/32
+	allow := vPick("allow", mixed, 2)
+	block := vPick("block", mixed, 2)
+	spec := &Spec{BlockByDefault: verifBool("blockByDefault"), AllowIPs: vTexts(allow), BlockIPs: vTexts(block)}
+	f := New(spec)
+	v6 := verifBool("clientIsIPv6")
+	var addr [16]byte
+	if v6 {
+		for i := 0; i < 16; i++ {
+			addr[i] = verifByte("client")
+		}
+		verifAssume(!(addr[0] == 0 && addr[1] == 0 && addr[2] == 0 && addr[3] == 0 && addr[4] == 0 && addr[5] == 0 &&
+			addr[6] == 0 && addr[7] == 0 && addr[8] == 0 && addr[9] == 0 && addr[10] == 0xff && addr[11] == 0xff))
+		vClient = net.IP(addr[:])
+	} else {
+		for i := 12; i < 16; i++ {
+			addr[i] = verifByte("client")
+		}
+		vClient = net.IP{0, 0, 0, 0, 0, 0, 0, 0, 0, 0, 0xff, 0xff, addr[12], addr[13], addr[14], addr[15]}
+	}
+	got := f.Allow("client")
+	inAllow, inBlock := false, false
+	families := 0
+	for _, n := range allow {
+		if vIn(addr, n, v6) {
+			inAllow = true
+		}
+		if n.v6 {
+			families |= 1
+		} else {
+			families |= 2
+		}
+	}
+	for _, n := range block {
+		if vIn(addr, n, v6) {
+			inBlock = true
+		}
+		if n.v6 {
+			families |= 1
+		} else {
+			families |= 2
+		}
+	}
+	denied := (inBlock && !inAllow) || ((inBlock == inAllow) && spec.BlockByDefault)
+	verifAssert(got == !denied, "allow-block-decision-table-with-prefix-semantics")
+	if families == 3 {
+		verifCover("lists-mixing-both-families")
+	}
+}
+
 func verifC05_DecisionV4() { vDecision(false) }
 func verifC05_DecisionV6() { vDecision(true) }
 
